@@ -70,9 +70,19 @@ type c06Case struct {
 	Late int `json:"late_registrations,omitempty"`
 	// Via > 0: every route is registered through regAPIs[Via] instead of Add (AddRoute(NewRoute), AddNamed, AttachTo, ...)
 	Via int `json:"registration_api,omitempty"`
+	// Long > 0: the paths of the requests are Long..Long+9 bytes long (matched ones first, then unmatched ones that share
+	// their first bytes with them)
+	Long int `json:"long_paths_from,omitempty"`
 }
 
 func c06Gen(tier string, emit func(c06Case)) {
+	for lo := 20; lo < 320; lo += 10 {
+		for o := 0; o < 16; o++ {
+			if o&1 != 0 { // with HandleMethodNotAllowed
+				emit(c06Case{Routes: []int{2, 3}, NotAllowed: true, Fallback: o&2 != 0, Strict: o&4 != 0, Cache: o&8 != 0, Long: lo})
+			}
+		}
+	}
 	maxK := 2
 	if tier == "thorough" {
 		maxK = 3
@@ -209,6 +219,15 @@ func c06Run(c c06Case, st *fw.Stats) []fw.Viol {
 	}
 	// two rounds; inside a round all methods are tried on one path before the next path, so that
 	// every method is requested after every other method on the same path (cache history matters)
+	paths := c06Paths
+	if c.Long > 0 {
+		// (pool routes 2 and 3: GET /a/{x}; PUT+DELETE /a/{x})
+		paths = nil
+		for L := c.Long; L < c.Long+10; L++ {
+			stem := "/a/" + strings.Repeat("k", L-3)
+			paths = append(paths, stem, stem+"/pub", stem[:len(stem)-1]+"j", stem+"x")
+		}
+	}
 	for round := 0; round < 2; round++ {
 		if round == 1 && c.Late > 0 {
 			if pv := try(func() {
@@ -227,7 +246,7 @@ func c06Run(c c06Case, st *fw.Stats) []fw.Viol {
 			}
 			tb = tbFull
 		}
-		for _, p := range c06Paths {
+		for _, p := range paths {
 			for _, m := range c06Methods {
 				want := tb.Resolve(m, p)
 				if want.Kind != "route" && round == 0 {
@@ -328,7 +347,7 @@ func c06Run(c c06Case, st *fw.Stats) []fw.Viol {
 var c06Spec = fw.Spec[c06Case]{
 	ID:    "C06",
 	Level: "model_checking",
-	Rule: "complete product: ordered tables of <=K routes from an 13-route pool x 2^4 option subsets {HandleMethodNotAllowed,HandleFallbackRoute,StrictLastSlash,caching (capacity 1 or 64)} x 6 InterceptAll values (listed after and before the other options) (+ every table with its last 1 or 2 routes registered only after a first round of all requests) (+ every table registered through each of the 6 other registration APIs) x {default,custom} NotFound x {default,custom} NotAllowed; per configuration 10 methods x 8 paths, each request twice through Match and ServeHTTP, vs refmodel.Resolve; " +
+	Rule: "complete product: ordered tables of <=K routes from an 13-route pool x 2^4 option subsets {HandleMethodNotAllowed,HandleFallbackRoute,StrictLastSlash,caching (capacity 1 or 64)} x 6 InterceptAll values (listed after and before the other options) (+ every table with its last 1 or 2 routes registered only after a first round of all requests) (+ every table registered through each of the 6 other registration APIs) (+ request paths of every length 20..319 bytes against a two-route table) x {default,custom} NotFound x {default,custom} NotAllowed; per configuration 10 methods x 8 paths, each request twice through Match and ServeHTTP, vs refmodel.Resolve; " +
 		"non-trivial = a request that is not a direct match (HEAD->GET, fallback, 405, 404)",
 	Assume: []string{"routes, paths and option values come from the stated alphabets"},
 	Bounds: func(tier string) map[string]any {
